@@ -130,7 +130,11 @@ func C15(c *Ctx) int {
 				c.Reject(fs, Rejection{Prop: "C15", Tags: []string{"olive-items"}, Ev: "roundtrip", Detail: "olive items document: " + rec.Kind}, map[string]any{"differences": rec.Kind})
 			}
 		}
+		// (here the empty text attributes are given a value too: an item that has a reference gets
+		// a literal value next to it, and so on)
+		alpha.PerturbEmptyStrings = true
 		perturb("olive-items", []byte(src))
+		alpha.PerturbEmptyStrings = false
 	}
 	c.Extra["attribute_variants"] = variants
 	c.Extra["bundled_files"] = len(files)
